@@ -4,8 +4,8 @@ properties listed in EXTRA), update meta.json and write seeded/RESULTS.md.  Usag
 import json, os, subprocess, sys, tempfile, shutil, concurrent.futures
 
 SEEDED = '/verif/seeded'
-EXTRA = {'C01': ['C02'], 'C02': ['C01'], 'C06': ['C10', 'C08'], 'C10': ['C06'], 'C04': ['C05', 'C12'], 'C05': ['C04', 'C03', 'C12'], 'C03': ['C05'],
-         'C12': ['C05'], 'C13': ['C05', 'C04', 'C03'], 'C14': ['C13', 'C04'], 'C15': ['C03', 'C07', 'C06'], 'C20': ['C09'], 'C17': ['C19'], 'C19': ['C17'], 'C16': ['C18']}
+EXTRA = {'C01': ['C02'], 'C02': ['C01'], 'C06': ['C10', 'C08'], 'C10': ['C06'], 'C04': ['C05', 'C12'], 'C05': ['C04', 'C03', 'C12', 'C13'], 'C03': ['C05'],
+         'C12': ['C05'], 'C13': ['C05', 'C04', 'C03'], 'C14': ['C13', 'C04'], 'C15': ['C03', 'C07', 'C06', 'C20', 'C09'], 'C20': ['C09'], 'C17': ['C19'], 'C19': ['C17'], 'C16': ['C18']}
 
 
 def run_one(name):
@@ -45,7 +45,39 @@ def run_one(name):
     return res
 
 
+def table():
+    """seeded/RESULTS.md from the meta.json files (which every run updates)."""
+    names = sorted(n for n in os.listdir(SEEDED) if os.path.isdir(os.path.join(SEEDED, n)))
+    rows = []
+    own = neigh = none = 0
+    for n in names:
+        mp = os.path.join(SEEDED, n, 'meta.json')
+        if not os.path.exists(mp):
+            continue
+        m = json.load(open(mp))
+        prop = n.split('-')[0]
+        det = m.get('detected_by_quick_checks') or []
+        if isinstance(det, bool):
+            det = [prop] if det else []
+        o = prop in det
+        own += o
+        neigh += (not o and bool(det))
+        none += (not det)
+        fv = (m.get('first_violation') or {})
+        rows.append('| %s | %s | %s | %s | %s | %s | %s |' % (
+            n, prop, (m.get('tests_with_patch') or '').split(',')[0], m.get('demo_exit_with_patch'), 'VIOLATION' if o else 'silent',
+            ', '.join(d for d in det if d != prop) or '-', (fv.get(prop) or (fv.get(det[0]) if det else '') or '').replace('|', '/')[:150]))
+    with open(os.path.join(SEEDED, 'RESULTS.md'), 'w') as fh:
+        fh.write('# Seeded property-breaking changes versus the quick checks\n\n(regenerate with tools/reseed.py; `tools/reseed.py --table` rebuilds this file from the meta.json files)\n\n')
+        fh.write('%d changes: %d reported by the quick check of their own property, %d only by a neighbouring check, %d by none.\n\n' % (len(rows), own, neigh, none))
+        fh.write('| change | property | 70 tests | demo exit | own check | neighbouring checks that fire (consulted only when the own check is silent) | first violation |\n|---|---|---|---|---|---|---|\n')
+        fh.write('\n'.join(rows) + '\n')
+    print('%d changes: own %d, neighbour only %d, none %d' % (len(rows), own, neigh, none))
+
+
 def main():
+    if '--table' in sys.argv:
+        return table()
     names = sorted(n for n in os.listdir(SEEDED) if os.path.isdir(os.path.join(SEEDED, n)))
     if len(sys.argv) > 1:
         names = [n for n in names if any(n.startswith(p) or ('-' + p) in n for p in sys.argv[1:])]
